@@ -520,7 +520,7 @@ func c12Mutate(t *rapid.T, body []byte, donor []byte) ([]byte, []string) {
 	var kinds []string
 	n := rapid.IntRange(1, 4).Draw(t, "nmut")
 	for i := 0; i < n && len(b) > 0; i++ {
-		k := rapid.SampledFrom([]string{"truncate", "flip", "byte", "pkglen", "pkglen", "selfname", "splice", "swapop", "dup", "insert", "nest", "bufnest", "bufnest"}).Draw(t, "mutk")
+		k := rapid.SampledFrom([]string{"truncate", "flip", "byte", "pkglen", "pkglen", "selfname", "splice", "swapop", "dup", "insert", "nest", "bufnest", "bufnest", "fieldconn"}).Draw(t, "mutk")
 		pos := rapid.IntRange(0, len(b)-1).Draw(t, "pos")
 		switch k {
 		case "truncate":
@@ -582,6 +582,49 @@ func c12Mutate(t *rapid.T, body []byte, donor []byte) ([]byte, []string) {
 					b = append(b[:at], append(inner, b[at:]...)...)
 					break
 				}
+			}
+		case "fieldconn":
+			// put 1-3 Connection(Buffer) elements with a tiny or zero PkgLength at the start of
+			// the field list of the next Field / IndexField
+			for j := pos; j+12 < len(b); j++ {
+				if b[j] != 0x5b || (b[j+1] != 0x81 && b[j+1] != 0x86) {
+					continue
+				}
+				at := j + 3 + int(b[j+2]>>6) // behind the PkgLength
+				names := 1
+				if b[j+1] == 0x86 {
+					names = 2
+				}
+				for ; names > 0 && at < len(b); names-- {
+					for at < len(b) && (b[at] == '\\' || b[at] == '^') {
+						at++
+					}
+					switch {
+					case at < len(b) && b[at] == 0x2e:
+						at += 9
+					case at+1 < len(b) && b[at] == 0x2f:
+						at += 2 + 4*int(b[at+1])
+					case at < len(b) && b[at] == 0:
+						at++
+					default:
+						at += 4
+					}
+				}
+				at++ // field flags
+				if at > len(b) {
+					break
+				}
+				var ins []byte
+				for k := rapid.IntRange(1, 3).Draw(t, "fcn"); k > 0; k-- {
+					ins = append(ins, 0x02, 0x11,
+						rapid.SampledFrom([]byte{0, 0, 0, 1, 2, 3, 0x40}).Draw(t, "fclen"),
+						rapid.SampledFrom([]byte{0x08, 0x0a, 0x00, 0x01}).Draw(t, "fcnext"))
+				}
+				if b[j+2] < 0x40 && int(b[j+2])+len(ins) < 0x40 && rapid.Bool().Draw(t, "fcfix") {
+					b[j+2] += byte(len(ins)) // keep the Field's own package consistent
+				}
+				b = append(b[:at], append(ins, b[at:]...)...)
+				break
 			}
 		case "nest":
 			// put a package-bearing term (Buffer/Package with its own, possibly too large,
